@@ -512,6 +512,23 @@ func modeC08(thorough bool, only string) {
 		// a zero TTL among larger ones bounds the lifetime, wherever it stands
 		add("t-zero", base, nil, one(n("r0t300d0fZ"), 0, 500, 3500)...)
 		add("t-zeromid", base, nil, one(n("r0t10d0fY"), 0, 400, 3500)...)
+		// every branch of the lifetime table is stored at least once (the bound is checked at the store):
+		// NXDOMAIN without records, SERVFAIL / REFUSED with an SOA, NOERROR with no record at all
+		add("t-nx0", base, nil, one(n("r3t0d0"), 0, 300)...)
+		add("t-sfsoa", base, nil, one(n("r2t7d0fA"), 0, 300, 3400)...)
+		add("t-rfsoa", base, nil, one(n("r5t3d0fA"), 0, 300)...)
+		add("t-empty", base, nil, one(n("r0t0d0fE"), 0, 300)...)
+		// a small configured maximum bounds negative and empty answers too
+		mx2 := base
+		mx2.maxTTL = 2
+		for i, lab := range []string{"r3t600d0fA", "r0t300d0fN", "r5t9d0fA", "r3t0d0", "r0t0d0fE"} {
+			add(fmt.Sprintf("t-maxneg%d", i), mx2, nil, one(n(lab), 0, 400, 4600)...)
+		}
+		// two overlapping misses of one name: the first is answered with records, the later one with SERVFAIL -
+		// the late error must not displace the live positive entry
+		ov := n("r0t300d0")
+		add("t-overlap", base, func(in *inst) { in.ups["u1"].setSeq(ov, "r0t300d100", "r2t0d600") },
+			[]step{{0, 1, ov}, {ms(20), 1, ov}, {ms(900), 1, ov}, {ms(3600), 1, ov}}...)
 		if thorough {
 			add("t-nx30", base, nil, one(n("r3t600d0fA"), 0, 15000, 28000, 32500)...)
 			add("t-nodata30", base, nil, one(n("r0t300d0fN"), 0, 10000, 32500)...)
@@ -548,6 +565,30 @@ func modeC08(thorough bool, only string) {
 			seq := []string{"r0t8d0", rc, rc}
 			add(fmt.Sprintf("p-badreply%d", i), base, func(in *inst) { in.ups["u1"].setSeq(pn, seq...) },
 				step{0, 1, pn}, step{ms(6300), 8, pn}, step{ms(6800), 4, pn}, step{ms(6900), 1, pn})
+		}
+		// the refresh is made for the hitting client's group (ip marker): later hits of that group see it
+		mk := base
+		mk.ipMarker = []string{"127.0.1.0,127.0.1.255,office"}
+		pm := n("r0t8d0")
+		add("p-marker", mk, func(in *inst) { in.ups["u1"].setSeq(pm, "r0t8d0", "r0t8d30") },
+			step{0, 1, pm}, step{ms(6300), 4, pm}, step{ms(6900), 2, pm}, step{ms(7600), 2, pm})
+		// many distinct entries in their refresh window with a slow upstream: every hit is still answered at once
+		{
+			var st []step
+			var names []string
+			for j := 0; j < 80; j++ {
+				names = append(names, n("r0t8d0"))
+				st = append(st, step{0, 1, names[j]})
+			}
+			for j := 0; j < 80; j++ {
+				st = append(st, step{ms(6300 + j), 1, names[j]})
+			}
+			nm := names
+			add("p-many", base, func(in *inst) {
+				for _, x := range nm {
+					in.ups["u1"].setSeq(x, "r0t8d0", "r0t8d3200")
+				}
+			}, st...)
 		}
 		p3 := n("r0t8d0")
 		add("p-silent", base, func(in *inst) { in.ups["u1"].setSeq(p3, "r0t8d0", "r0t8d0fS") },
